@@ -35,6 +35,7 @@ typedef struct fsm {
   int       m_history_last[NR_CAP];     /* history policy memory (Always/Shallow) */
   int       m_history_init[NR_CAP];     /* history policy initial states */
   struct fsm* m_root_sm;                /* backmp11: *m_root_sm (a non_propagating pointer wrapper) */
+  struct fsm* m_upper_fsm;              /* back11: the enclosing machine (UpperFsm parameter, get_upper()); wired by the constructor, identity of the OBJECT */
 } fsm_t;
 
 /* ---- ghost state (ledger) ---- */
